@@ -265,8 +265,14 @@ type Machine struct {
 }
 
 func NewMachine(p *Prog, model Model) *Machine {
-	return &Machine{P: p, Model: model, MaxDepth: 6, MaxStates: 400000, visited: map[string]int{}, conds: map[string]condInfo{},
+	m := &Machine{P: p, Model: model, MaxDepth: 6, MaxStates: 400000, visited: map[string]int{}, conds: map[string]condInfo{},
 		Inline: func(fn *ssa.Function) bool { return true }}
+	if thoroughMode {
+		// thorough tier: same inlining depth (the event alphabets the rules are written against depend on it), five
+		// times the state budget so that no exploration is cut short where the quick tier would give up
+		m.MaxStates = 2000000
+	}
+	return m
 }
 
 // site gives a stable (line-independent) name of an instruction inside its function.
